@@ -88,10 +88,14 @@ func deliverToSubscription(
 				func(s *sql.Selector) {
 					t := sql.Table(message.Table)
 					s.Join(t).On(s.C(delivery.MessageColumn), t.C(message.FieldID))
-					s.Where(sql.And(
-						// not necessary? maybe helps with indexes?
-						sql.EQ(t.C(message.TopicColumn), m.TopicID),
-					))
+					// ordering is per subscription and key: only an earlier delivery of
+					// a message with the same order key may hold this one back.
+					// chaining to the most recent delivery of any (or no) key lets a
+					// later same-key message overtake an earlier one as soon as the
+					// unrelated delivery in between completes, and restricting the
+					// search to messages of one topic lets a dead-letter delivery
+					// from another topic overtake everything.
+					s.Where(sql.EQ(t.C(message.FieldOrderKey), *m.OrderKey))
 				},
 			).
 			Order(ent.Desc(delivery.FieldPublishedAt)).
